@@ -61,12 +61,24 @@ def api_level(chk):
                       dict(family="lruconc-trace", seed=chk.seed, line=bad))
 
 
+def router_level(chk):
+    """Second sentence of C14: the entry for exactly that method and path is present after a dynamic request."""
+    from . import c07
+    res, s, pd = c07.explore(chk)
+    chk.absorb(s, "rcache", only={"cache-content", "cache-fill", "panic"})
+    r = core.run_tlc("MC_RouterCache", cfg_text=c07.ccfg(["overlap"], ["FF"], [1, 2], emit=False, invs=[],
+                                                     props=["MCFilledAfterDynamic"], D_CacheKeyFirstSegment=True),
+                     extra_files=[pd], timeout=600)
+    chk.expect_fails(r, "MC_RouterCache[D_CacheKeyFirstSegment]", "MCFilledAfterDynamic")
+
+
 def run(chk):
     chk.assumptions += [
         "cache keys are opaque strings; values are route copies identified by name",
         "Has() is implemented as Get() and refreshes recency; the statement allows either",
     ]
     api_level(chk)
+    router_level(chk)
 
 
 def replay(doc):
